@@ -135,11 +135,15 @@ def build(prop, config, drivers):
             raise RuntimeError('generator %s failed:\n%s' % (gen[0], r.stdout))
 
     lib = lib_sources() if spec.get('lib', True) else []
+    lib_extra = list(cfg.get('lib_extra', []))
+    if config == 'fuzz' and spec.get('fuzz_oom'):
+        lib_extra = CONFIGS['oom']['lib_extra'] + ['-DVF_OOM=1']
+        defs = defs + ['-DVF_OOM=1']
     for f in lib:
         o = os.path.join(out, 'lib_' + os.path.basename(f)[:-2] + '.o')
         objs.append(o)
         jobs.append([cfg['cc'], '-std=gnu11'] + cfg['cflags'] +
-                    cfg.get('lib_extra', []) + ['-w'] + inc +
+                    lib_extra + ['-w'] + inc +
                     ['-c', f, '-o', o])
     hfiles = list(spec['harness']) + ['vf_core.c']
     if config == 'oom' or spec.get('alloc'):
@@ -208,6 +212,8 @@ def base_env(prop, tier, known_ids):
     env['TSAN_OPTIONS'] = 'halt_on_error=1:exitcode=87:report_signal_unsafe=0'
     for k in ('VF_STATS', 'VF_FAIL', 'VF_CRASH', 'RC_PARAMS'):
         env.pop(k, None)
+    if P.PROPS[prop].get('case_timeout'):
+        env['VF_CASE_TIMEOUT'] = str(P.PROPS[prop]['case_timeout'])
     for k, v in P.PROPS[prop].get('env', {}).items():
         env[k] = v
     return env
@@ -243,7 +249,8 @@ def failure_site(out):
         return m.group(1) + '/' + m.group(2)
     if 'AddressSanitizer' in out:
         m = re.search(r'AddressSanitizer: (\S+)', out)
-        return 'asan/' + (m.group(1) if m else '?')
+        f = re.search(r'^\s+#\d+ \S+ in (varint\w+)', out, re.M)
+        return 'asan/' + (m.group(1) if m else '?') + ('@' + f.group(1) if f else '')
     if 'MemorySanitizer' in out:
         return 'msan'
     if 'ThreadSanitizer' in out:
@@ -540,7 +547,7 @@ def main(argv):
     dump_configs = [c for c in configs if 'rc' not in bins[c]]
     dump_from = tspec.get('dump_from', rc_configs[0] if rc_configs else None)
     dumps = []
-    if rc_configs and not (candidates and not args.keep_going):
+    if rc_configs and not ([c_ for c_ in candidates if c_.engine != 'sweep'] and not args.keep_going):
         shares = tspec.get('shares') or {c: 1 for c in rc_configs}
         total_share = sum(shares.get(c, 1) for c in rc_configs)
         nworkers = tspec.get('workers', NCPU)
@@ -653,7 +660,7 @@ def main(argv):
     # ----------------------------------------------------------- libFuzzer
     if use_fuzz and not (candidates and not args.keep_going):
         nworkers = tspec.get('fuzz_workers', NCPU)
-        secs = int(tspec['fuzz_s'] * scale)
+        secs = max(5, int(tspec['fuzz_s'] * scale))  # 0 would mean unlimited
         cmds = []
         meta = []
         for i in range(nworkers):
